@@ -310,3 +310,5 @@ def summarize(results, tier):
         "samples": samples[:6],
         "exhaustive": True,
     }
+
+RULE += ' Session 4: switch keys / overload aliases of different types below a consumer and inside a coalesce.'
